@@ -24,7 +24,8 @@ ops
 
 Predicates.  `geom`, `bits`, `coll`: what comes back equals what went in (`roundtrip`).  `feat i` (only when every feature of
 the collection is well shaped): GeoJSON feature `i` is found once, under the expected kind, with the same geometry
-(loops compared as cycles in either direction, a polygon as a set of loops, ring 0 outer and the others holes) and
+(loops compared as cycles in either direction, a polygon as a set of loops, ring 0 outer and the others holes, and the
+polygon on the side of its outer ring that holds the ring's vertex centroid — the smaller of the two regions) and
 every property readable under its stored key (`storedKey`: `geojson:point` / `geojson:path` for the two reserved keys, the
 key itself otherwise) (`import_one_per_feature`).  Failures in the recorded class carry `class=multi-geometry-dropped`
 (the feature is a MultiPoint / MultiLineString).
@@ -221,6 +222,9 @@ structure Found where
   kind : String
   obs : Obs
   tags : List String          -- `k=<tagval>` in stored order
+  /-- some polygon of the area does not contain the probe point of its outer ring (the harness flags that loop
+  `2`): it is the complement of the region the ring was drawn around -/
+  wrongSide : Bool := false
 
 def Found.render (f : Found) : String :=
   s!"{f.kind} {f.obs.canon.render} {renderList (sortStrings f.tags)}"
@@ -228,9 +232,10 @@ def Found.render (f : Found) : String :=
 def parseFound (s : String) : Option Found :=
   match words s with
   | kind :: obs :: rest => do
-    let o ← parseObs obs
+    let wrong := (obs.splitOn "[2,[").length > 1
+    let o ← parseObs ("[0,[".intercalate (obs.splitOn "[2,["))
     let tags ← parseBracket (" ".intercalate rest)
-    some { kind := kind, obs := o, tags := tags }
+    some { kind := kind, obs := o, tags := tags, wrongSide := wrong }
   | _ => none
 
 def parseAnswer (s : String) : Option (List Found) :=
@@ -253,6 +258,7 @@ def faithful (f : Feature Int) (found : List Found) : Bool :=
   match expectedGeom f.geom, found with
   | some (t, g), [x] =>
     x.kind == kindName t
+    && !x.wrongSide
     && x.obs.canon.render == (obsOfModel g).canon.render
     && f.props.all fun kv =>
         (x.tags.find? fun tg => tg.startsWith (storedKey kv.1 ++ "=")) == some (storedKey kv.1 ++ "=s:" ++ kv.2)
